@@ -24,6 +24,7 @@ FUNCTIONS = [
     "nessai.evidence._NSIntegralState.increment",
     "nessai.livepoint.empty_structured_array",
     "nessai.livepoint.get_dtype",
+    "nessai.proposal.flowproposal.FlowProposal.convert_to_samples",
 ]
 BOUNDS = {
     "quick": dict(nlive="1..4", candidates_offered_per_iteration="<=2 (pool may run empty after any draw)", populate="nlive<=3, <=nlive+2 candidates", composition="populate(<=3) + 2 x consume + finalise, 1 spare candidate"),
@@ -273,6 +274,89 @@ def make_step(N, K):
     return body
 
 
+class PoolProposal:
+    """Hands out the points of a pool produced by the real FlowProposal.convert_to_samples."""
+
+    def __init__(self, pool):
+        self.pool, self.i = pool, 0
+        self._checked_population = True
+
+    @property
+    def populated(self):
+        return self.i < len(self.pool)
+
+    def draw(self, old):
+        if self.i >= len(self.pool):
+            raise OutOfBound("more candidates needed than the pool holds")
+        p = self.pool[self.i]
+        self.i += 1
+        return p
+
+
+def make_step_flow_pool(N):
+    """One iteration whose replacement comes out of the real FlowProposal.convert_to_samples, for a proposal whose
+    parameters are ordered differently from the model's (reparameterisations are added in the user's order): the
+    sampler copies the pool point into the live set, which must then hold the proposed point parameter by parameter."""
+    def body(ctx):
+        from nessai.livepoint import get_dtype
+        from nessai.proposal.flowproposal import FlowProposal
+        names = ["x", "y"]
+        order = [["x", "y"], ["y", "x"]][ctx.choice("proposal_parameter_order", 2)]
+        lo = {n: ctx.real(f"lo_{n}", -5, 5) for n in names}
+        hi = {n: ctx.real(f"hi_{n}", -5, 5) for n in names}
+        ctx.assume(_conj([lo[n] < hi[n] for n in names]))
+        ns = _sampler(ctx, N)
+        ns.model.names = names
+        dt = get_dtype(names)
+        Ls = [ctx.real(f"L{i}") for i in range(N)]
+        for i in range(N - 1):
+            ctx.assume(Ls[i] <= Ls[i + 1])
+        live = np.empty(N, dtype=dt)
+        for i in range(N):
+            live["x"][i], live["y"][i] = ctx.real(f"x{i}"), ctx.real(f"y{i}")
+            live["logP"][i], live["logL"][i], live["it"][i], live["tag"][i] = ctx.real(f"P{i}"), Ls[i], 0, i
+        ns.live_points = live
+        prev = ctx.real("prevL")
+        ctx.assume(prev <= Ls[0])
+        ns.logLmax, ns.logLmin, ns.iteration = Ls[N - 1], prev, 1
+        ns.state.logLs, ns.state.log_vols, ns.state.logw = [-np.inf, prev], [0.0, -1.0 / N], -1.0 / N
+        ns.state.logZ, ns.state.info = ctx.logval("Z0", positive=True), [0.0]
+        # the proposal's x-space array, fields in the proposal's own order, one point inside the prior box
+        fp = FlowProposal.__new__(FlowProposal)
+        fp.use_x_prime_prior = False
+        fp._plot_pool = False
+        cand = {n: ctx.real(f"c_{n}", -5, 5) for n in names}
+        ctx.assume(_conj([(cand[n] >= lo[n]) & (cand[n] <= hi[n]) for n in names]))
+        cP, cL = ctx.real("cP"), ctx.real("cL")
+        ctx.assume((cL > Ls[0]) & (cL != 0))
+
+        class M:
+            pass
+        fp.model = M()
+        fp.model.names = names
+        fp.model.batch_evaluate_log_prior = lambda x: np.array([cP] * len(x), dtype=object if ctx.mode == "sym" else float)
+        x = np.empty(1, dtype=get_dtype(order))
+        for n in names:
+            x[n][0] = cand[n]
+        x["logL"][0], x["logP"][0], x["it"][0], x["tag"][0] = 0.0, 0.0, 0, 100
+        pool = fp.convert_to_samples(x, plot=False)
+        pool["logL"][0] = cL          # populate evaluates the likelihood after the conversion
+        ns.proposal = PoolProposal(pool)
+        ns.consume_sample()
+        lp = ns.live_points
+        tags = [int(t) for t in lp["tag"]]
+        ctx.prove(tags.count(100) == 1, "the pool point entered the live set once")
+        pos = tags.index(100)
+        for n in names:
+            ctx.prove_eq(lp[n][pos], cand[n], "replacement parameters are the proposed ones, parameter by parameter")
+            ctx.prove((lp[n][pos] >= lo[n]) & (lp[n][pos] <= hi[n]), "replacement lies inside the prior bounds of each parameter")
+        ctx.prove_eq(lp["logL"][pos], cL, "replacement likelihood is the proposed one")
+        ctx.prove_eq(lp["logP"][pos], cP, "replacement prior is the proposed one")
+        ctx.prove(ns.insertion_indices == [pos], "recorded insertion index is the position the new point occupies")
+        ctx.cover("end")
+    return body
+
+
 def make_populate(N, K):
     def body(ctx):
         dt = _dtype()
@@ -368,6 +452,9 @@ def units(tier):
         us.append(Unit(f"step[N={N},K={K}]", make_step(N, K), MODS, opts, expect_cover=["end", "replaced"],
                        mutants=["nonstrict", "index"] if (N, K) == steps[1] else [], twin_runs=40, setup=setup,
                        extra_patches=EXTRA, witness_every=20 if tier == "quick" else 200))
+    for N in ((2,) if tier == "quick" else (1, 2, 3)):
+        us.append(Unit(f"step_flow_pool[N={N},2 params,either parameter order]", make_step_flow_pool(N), MODS + ["nessai.proposal.flowproposal"], opts,
+                       expect_cover=["end"], twin_runs=20, setup=setup, extra_patches=EXTRA, witness_every=2))
     for (N, K) in pops:
         us.append(Unit(f"populate[N={N},K={K}]", make_populate(N, K), MODS, opts, expect_cover=["end"], twin_runs=30, setup=setup,
                        extra_patches=EXTRA, witness_every=20 if tier == "quick" else 200))
